@@ -13,11 +13,11 @@ CONSTANTS TraceFile
 Trace == ndJsonDeserialize(TraceFile)
 ASSUME TLCSet(1, 0)
 VARIABLES l, pend       \* pend: op id |-> "inv" | "lin"
-tvars == <<stream, rd, closed, broken, half, l, pend>>
+tvars == <<stream, rd, closed, broken, half, faulted, l, pend>>
 T == Trace[l]
 
 TReset == /\ l <= Len(Trace) /\ T.ev = "reset" /\ l' = l + 1 /\ pend = <<>>
-          /\ stream' = [e \in Ends |-> <<>>] /\ rd' = [e \in Ends |-> <<1, 0>>] /\ closed' = {} /\ broken' = {} /\ half' = {}
+          /\ stream' = [e \in Ends |-> <<>>] /\ rd' = [e \in Ends |-> <<1, 0>>] /\ closed' = {} /\ broken' = {} /\ half' = {} /\ faulted' = {}
           /\ pend' = <<>>
 \* pend is a function from op ids to states, kept as a set of pairs for simplicity
 TInv == /\ l <= Len(Trace) /\ T.ev = "inv" /\ l' = l + 1
@@ -35,6 +35,7 @@ Lin == \E i \in 1..Len(pend) :
                 [] o.kind = "read" -> IF o.ok THEN ReadOK(o.e, o.segs) ELSE ReadErr(o.e)
                 [] o.kind = "close" -> CloseOp(o.e)
                 [] o.kind = "closewrite" -> CloseWriteOp(o.e)
+                [] o.kind = "faultread" -> FaultRead(o.e)
          /\ pend' = [pend EXCEPT ![i].st = "lin"]
          /\ UNCHANGED l
 TRes == /\ l <= Len(Trace) /\ T.ev = "res" /\ l' = l + 1
